@@ -67,10 +67,11 @@ theorem C04_wire_sys (cfgA cfgB : Cfg) (sch : List SysEv)
   · rw [pa, List.append_assoc]; exact List.prefix_append _ _
   · rw [pb, List.append_assoc]; exact List.prefix_append _ _
 
-/-- The implementation never emits XFER_REFUSE and its SESS_INIT announces the configured MRU. -/
+/-- The implementation never emits XFER_REFUSE, its SESS_INIT announces the configured MRU and keepalive
+    interval, and it sends a KEEPALIVE only if its configured keepalive interval is positive. -/
 theorem C04_emit_shape (cfg : Cfg) (evs : List Ev) :
     ∀ m ∈ (runEp { cfg := cfg } evs).emitted, emitOK cfg m := by
-  have h := emitInv_run evs _ (emitInv_init cfg)
+  have h := emitInv_run evs _ (emitInv_init cfg) (by constructor <;> (intro h; cases h)) (kc_init cfg)
   have hc : (runEp { cfg := cfg } evs).cfg = cfg := by
     induction evs generalizing cfg with
     | nil => rfl
